@@ -231,12 +231,6 @@ def parseForkTopo (chainT : String) : Option Topo := do
   pure { kinds := Kind.pass :: all.map (·.2.1.kind), shapes := all.map (·.2.1.shape), par := 0 :: all.map (·.2.2),
          decl := 0 :: all.map (·.1), fork := true }
 
-/-- a failing UDF node with a node below it, in some branch (finding `failed-udf-forwarder-not-joined`) -/
-def failAbove (chainT : String) : Bool :=
-  (chainT.splitOn ";").any (fun br =>
-    let ts := br.splitOn ","
-    (ts.zipIdx.any (fun p => p.1.startsWith "fail:" && p.2 + 1 < ts.length)))
-
 /-- Topologies with a union / join node (several PARENTS): no model, the property on the observed outcome only.
 `mult` = how often an output below the merging node must have been handed every accepted point. -/
 def judgeMerge (l chainT clsT stopT : String) (obs : List String) : Verdict := Id.run do
@@ -312,13 +306,12 @@ def judge (_id : String) (lines : Array String) : Verdict := Id.run do
   let ctlSlack := 40
   let barrierCtl := kinds.any isBarrier && stop != .close && (cls == .gated || cls == .immediate) && !isFork
   let pB := if barrierCtl then simulate (step { cfg with cap := edgeCap - ctlSlack }) topo.decl kinds cls n 0 else pS
-  -- finding `periodic-barrier-delete-deadlock` (deviation clause: a barrier().period().delete(TRUE) node in the chain and
-  -- a schedule class with back-pressure, so that the node's own input edge can be full when its timer fires): the node
-  -- goroutine waits in periodicBarrier.DeleteGroup -> Stop -> wg.Wait for the timer goroutine, which is blocked collecting
-  -- its next DeleteGroup message into that full edge, whose only consumer is the waiting node. Control messages are not
-  -- in the model, so the hang is accepted under the clause only.
+  -- (coverage tag only) a barrier().period().delete(TRUE) node under back-pressure: its own input edge can be full when
+  -- its timer fires. It used to deadlock there (periodicBarrier.DeleteGroup -> Stop -> wg.Wait for the timer goroutine
+  -- blocked on that edge; repaired by 4d7f3d1, witness corpus/C07/fixed-periodic-barrier-delete-deadlock.ops); a hang
+  -- of such a chain is a violation like any other.
   let pbDead := !isFork && (chainT.splitOn ",").any (·.startsWith "pbarrier:") && (cls == .gated || cls == .immediate)
-  let canHang := !pS.returned || !pP.returned || !pF.returned || pbDead
+  let canHang := !pS.returned || !pP.returned || !pF.returned
   let mustHang := !pS.returned && !pP.returned && !pF.returned
   let anyFailed := pS.failed || pP.failed || pF.failed
   let mut br : List String := [clsT, stopT] ++ (kinds.drop 1 |>.map (fun k => match k with
@@ -334,7 +327,6 @@ def judge (_id : String) (lines : Array String) : Verdict := Id.run do
   if pbDead then br := br ++ ["pbarrier-backpressure"]
   if isFork then br := br ++ ["fork-tree-model", if anyFailed then "fork-branch-failed" else "fork-healthy"]
   else br := br ++ ["tree=chain"]
-  let failFwd := if isFork then failAbove chainT else devFailForward input
   -- fork cases: the harness reports the walk order of the real task after the six observation tokens
   let (obs, walkT) := if isFork && obs.length == 7 then (obs.take 6, obs.getD 6 "") else (obs, "")
   if isFork && walkT != "" then
@@ -347,7 +339,6 @@ def judge (_id : String) (lines : Array String) : Verdict := Id.run do
   | ["panic"] =>
     -- the process died: the property is violated; no recorded deviation allows it
     let canCrash := pS.crashed || pP.crashed || pF.crashed
-    if failFwd then return .known "failed-udf-forwarder-not-joined" "the real code panicked (send on closed channel from the forwarding goroutine of a UDF node whose process died)"
     return .specfail "no-crash" s!"the real code panicked (the harness child process died); model can crash: {canCrash}"
   | ["stuck"] => return .specfail "stop-completes" "the harness child process got stuck"
   | [accT, stopres, censusT, outsT, lateT, nodeErrT] =>
@@ -389,8 +380,6 @@ def judge (_id : String) (lines : Array String) : Verdict := Id.run do
       -- explained by a recorded deviation?
       if clause == "stop-completes" then
         if devLoop input then return .known "loopback-stop-deadlock" detail
-        if pbDead then return .known "periodic-barrier-delete-deadlock" detail
-        if devUdfFail input && !isFork then return .known "udf-above-failed-node-blocks-stop" detail
         return .specfail clause detail
       if clause == "accepted-points-delivered" then
         if devUdf input && (pS.lostAt.any (fun p => kinds[p.1]? == some .udf)) then
